@@ -123,6 +123,7 @@ Ltac bnorm :=
   repeat match goal with
   | H : andb _ _ = true |- _ => apply andb_prop in H; destruct H
   | H : orb _ _ = false |- _ => apply orb_false_elim in H; destruct H
+  | H : orb _ _ = true |- _ => apply orb_prop in H; destruct H
   | H : negb _ = true |- _ => apply negb_true_iff in H
   | H : negb _ = false |- _ => apply negb_false_iff in H
   | H : Nat.eqb _ _ = true |- _ => apply Nat.eqb_eq in H
@@ -155,8 +156,10 @@ Ltac upd_tac :=
   | |- context [upd ?g ?k ?x ?k] => rewrite (upd_same g k x)
   | H : context [upd ?g ?k ?x ?j] |- _ => rewrite (upd_other g k x j) in H by congruence
   | |- context [upd ?g ?k ?x ?j] => rewrite (upd_other g k x j) by congruence
-  | H : context [upd ?g ?k ?x ?j] |- _ => destruct (Nat.eq_dec j k); [subst|]
-  | |- context [upd ?g ?k ?x ?j] => destruct (Nat.eq_dec j k); [subst|]
+  | H : context [upd ?g ?k ?x ?j] |- _ =>
+      let e := fresh "e" in destruct (Nat.eq_dec j k) as [e|e]; [first [subst j | subst k | rewrite e in *]|]
+  | |- context [upd ?g ?k ?x ?j] =>
+      let e := fresh "e" in destruct (Nat.eq_dec j k) as [e|e]; [first [subst j | subst k | rewrite e in *]|]
   end.
 
 (* forward saturation with the clauses of I : KInv n s *)
@@ -189,6 +192,7 @@ Ltac sat1 n s I :=
       lazymatch t with u => fail | _ => note (kold_c n s I t u f H H') end
   | H : oldf s ?t = Some ?f, H' : maintf s ?u = Some ?f |- _ =>
       lazymatch t with u => fail | _ => note (kold_d n s I t u f H H') end
+  | H : cur s ?t = cur s ?u, Ht : ?t < n, Hu : ?u < n |- _ => note (cur_inj n s I t u Ht Hu H)
   | H : ref s ?f ?a |- _ => note (krt n s I f a H)
   | H : ref s ?f ?a, H' : ref s ?f ?b |- _ =>
       lazymatch a with b => fail | _ => note (ku n s I f a b H H') end
@@ -251,4 +255,4 @@ Ltac start H s' :=
   repeat match type of H with
          | Some (if ?b then _ else _) = Some _ => let E := fresh "G" in destruct b eqn:E
          end;
-  injection H as H; subst s'; bnorm.
+  injection H as H; subst s'; unfold switch_target in *; bnorm.
